@@ -3,10 +3,12 @@
    [fixed = false] is the code as delivered).  LSQR is not modelled (no square
    root on Qc): its tie to SciPy is the harness comparison (oracle).
    NOT proved here: finite termination of CG in n steps for every HPD matrix
-   (cg_finite_termination): it is established per generated system by exact
-   evaluation of the model in the check (kold_n = 0 and normal equations = 0). *)
+   (cg_finite_termination): kold_n = 0 is established per generated system by
+   exact evaluation of the model in the check; from kold = 0 the theorems
+   C09_cgls_kold_zero_normal_equations / C09_normal_equations_minimise give
+   "x_n is the minimiser" for every system over an ordered field. *)
 From Coq Require Import QArith Qcanon.
-From PV Require Import Dict Vec Dot Mat QcInst Check CG CGLS CGLSFacts.
+From PV Require Import Dict Vec Dot Mat QcInst Check CG CGLS CGLSFacts CGLSMono.
 Import ListNotations.
 
 (* CG: r_k = y - A x_k for all inputs, all k (any linear Aop, any abs, any field with conjugation) *)
@@ -23,56 +25,47 @@ Theorem C09_mv_linop : forall (R : CRing) n (M : list (list R)), linop R n (leng
 Proof. exact mv_linop. Qed.
 Print Assumptions C09_mv_linop.
 
-(* CGLS: s_k = y - A x_k, q_k = A c_k, r_k = A^H s_k - damp^2 x_k, for all k, under exactly the
-   guard the setup needs: no x0, or damp * x0 = damp^2 * x0 (x0 = 0 or damp in {0,1}); no guard
-   at all for the repaired setup (fixed = true makes cgls_guard trivially true) *)
-Theorem C09_cgls_invariants_partial :
-  forall (F : FieldS) (absf : F -> F) n (A : list (list F)) (fixed : bool), wfM F n A ->
-  forall y, length y = length A -> forall damp x0 k, x0_ok F n x0 -> cgls_guard F fixed damp x0 ->
-    let st := cgls_iter F absf n A k (cgls_setup F absf n A fixed y x0 damp) in
+(* CGLS: s_k = y - A x_k, q_k = A c_k, r_k = A^H s_k - damp^2 x_k, for ALL inputs (x0, damp) and all k *)
+Theorem C09_cgls_invariants :
+  forall (F : FieldS) (absf : F -> F) n (A : list (list F)), wfM F n A ->
+  forall y, length y = length A -> forall damp x0 k, x0_ok F n x0 ->
+    let st := cgls_iter F absf n A k (cgls_setup F absf n A y x0 damp) in
     cl_s F st = vsub F y (mv F A (cl_x F st)) /\ cl_q F st = mv F A (cl_c F st) /\
     cl_r F st = vsub F (mvH F n A (cl_s F st)) (vscale F (rmul F damp damp) (cl_x F st)).
 Proof. exact cgls_invariants. Qed.
-Print Assumptions C09_cgls_invariants_partial.
-
-(* the data-residual and q invariants need no guard; the r invariant holds from k = 1 on for all inputs *)
-Theorem C09_cgls_inv_all_inputs :
-  forall (F : FieldS) (absf : F -> F) n (A : list (list F)) (fixed : bool), wfM F n A ->
-  forall y, length y = length A -> forall damp x0 k, x0_ok F n x0 ->
-    cl_inv F n A y damp (cgls_iter F absf n A k (cgls_setup F absf n A fixed y x0 damp)).
-Proof. exact cgls_inv_iter. Qed.
-Print Assumptions C09_cgls_inv_all_inputs.
-
-Theorem C09_cgls_setup_refuted :
-  exists (A : list (list QcF)) (y x0 : list QcF) (damp : QcF),
-    wfM QcF 1 A /\ length y = length A /\ length x0 = 1%nat /\
-    ~ cl_rinv QcF 1 A damp (cgls_setup QcF absR 1 A false y (Some x0) damp).
-Proof. exact cgls_setup_refuted. Qed.
-Print Assumptions C09_cgls_setup_refuted.
-
-(* the code as delivered misses the minimiser (k = 1, 2, 3 on a 1-unknown system); the repaired setup hits it at k = 1 *)
-Theorem C09_cgls_minimiser_refuted :
-  exists (A : list (list QcF)) (y x0 : list QcF) (damp : QcF),
-    wfM QcF 1 A /\ length y = length A /\ length x0 = 1%nat /\
-    (forall k, (1 <= k <= 3)%nat ->
-       let x := cl_x QcF (cgls_iter QcF absR 1 A k (cgls_setup QcF absR 1 A false y (Some x0) damp)) in
-       vsub QcF (mvH QcF 1 A (vsub QcF y (mv QcF A x))) (vscale QcF (damp * damp)%Qc x) <> [0%Qc]) /\
-    (let x := cl_x QcF (cgls_iter QcF absR 1 A 1 (cgls_setup QcF absR 1 A true y (Some x0) damp)) in
-       vsub QcF (mvH QcF 1 A (vsub QcF y (mv QcF A x))) (vscale QcF (damp * damp)%Qc x) = [0%Qc]).
-Proof. exact cgls_minimiser_refuted. Qed.
-Print Assumptions C09_cgls_minimiser_refuted.
+Print Assumptions C09_cgls_invariants.
 
 (* CGLS on (A, y, damp, x0) and CG on (A^H A + damp^2 I, A^H y, x0) have the same x_k, c_k, r_k, kold_k, iiter_k
-   for ALL k (abs = identity on Hermitian squares, damp real) *)
-Theorem C09_cgls_simulates_cg_partial :
-  forall (F : FieldS) (absf : F -> F) n (A : list (list F)) (fixed : bool), wfM F n A ->
+   for ALL k and all x0 (hypotheses: numpy abs is the identity on Hermitian squares r.r^bar; damp is real) *)
+Theorem C09_cgls_simulates_cg :
+  forall (F : FieldS) (absf : F -> F) n (A : list (list F)), wfM F n A ->
   forall y, length y = length A -> forall damp, conj F damp = damp ->
   (forall v : list F, absf (dot F v v) = dot F v v) ->
-  forall x0 k, x0_ok F n x0 -> cgls_guard F fixed damp x0 ->
-    sim F (cgls_iter F absf n A k (cgls_setup F absf n A fixed y x0 damp))
+  forall x0 k, x0_ok F n x0 ->
+    sim F (cgls_iter F absf n A k (cgls_setup F absf n A y x0 damp))
           (cg_iter F absf (normal_op F n A damp) k (cg_setup F absf (normal_op F n A damp) n (normal_rhs F n A y) x0)).
 Proof. exact cgls_simulates_cg. Qed.
-Print Assumptions C09_cgls_simulates_cg_partial.
+Print Assumptions C09_cgls_simulates_cg.
+
+(* a stationary point of the iteration solves the damped normal equations, and every solution of the damped
+   normal equations minimises J(x) = ||y - A x||^2 + damp^2 ||x||^2 (ordered field) *)
+Theorem C09_cgls_kold_zero_normal_equations :
+  forall (O : OrdField) (absf : O -> O) n (A : list (list O)), wfM O n A ->
+  forall y, length y = length A -> forall damp, (forall v : list O, absf (dot O v v) = dot O v v) ->
+  forall x0 k, x0_ok O n x0 ->
+    let st := cgls_iter O absf n A k (cgls_setup O absf n A y x0 damp) in
+    cl_kold O st = r0 O ->
+    vsub O (mvH O n A (vsub O y (mv O A (cl_x O st)))) (vscale O (rmul O damp damp) (cl_x O st)) = zeros O n.
+Proof. exact cgls_kold_zero_normal_eq. Qed.
+Print Assumptions C09_cgls_kold_zero_normal_equations.
+
+Theorem C09_normal_equations_minimise :
+  forall (O : OrdField) n (A : list (list O)), wfM O n A -> forall y, length y = length A -> forall damp x z,
+    length x = n -> length z = n ->
+    vsub O (mvH O n A (vsub O y (mv O A x))) (vscale O (rmul O damp damp) x) = zeros O n ->
+    rle O (lsfun O A y damp x) (lsfun O A y damp z).
+Proof. exact normal_eq_minimises. Qed.
+Print Assumptions C09_normal_equations_minimise.
 
 (* the normal-equation operator is linear, so C09_cg_residual_inv applies to it *)
 Theorem C09_normal_op_linop :
@@ -80,12 +73,12 @@ Theorem C09_normal_op_linop :
 Proof. exact normal_op_linop. Qed.
 Print Assumptions C09_normal_op_linop.
 
-(* the hypotheses above are satisfiable by a concrete non-trivial system (3x2 over Qc, damp = 1/2, numpy abs) *)
+(* the hypotheses above are satisfiable by a concrete non-trivial system (3x2 over Qc, damp = 1/2, x0 <> 0,
+   numpy abs): two iterations reach kold = 0 exactly, one does not *)
 Example C09_hypotheses_satisfiable :
   wfM QcF 2 eA /\ length ey = length eA /\ conj QcF ed = ed /\ (forall v : list QcF, absR (dot QcF v v) = dot QcF v v) /\
-  x0_ok QcF 2 (Some [qz 1; qz (-1)]) /\ cgls_guard QcF true ed (Some [qz 1; qz (-1)]) /\ cgls_guard QcF false ed None /\
-  cgls_guard QcF false (qz 1) (Some [qz 1; qz (-1)]) /\
-  cl_kold QcF (cgls_iter QcF absR 2 eA 2 (cgls_setup QcF absR 2 eA true ey (Some [qz 1; qz (-1)]) ed)) = 0%Qc /\
-  cl_kold QcF (cgls_iter QcF absR 2 eA 1 (cgls_setup QcF absR 2 eA true ey (Some [qz 1; qz (-1)]) ed)) <> 0%Qc.
+  x0_ok QcF 2 (Some [qz 1; qz (-1)]) /\
+  cl_kold QcF (cgls_iter QcF absR 2 eA 2 (cgls_setup QcF absR 2 eA ey (Some [qz 1; qz (-1)]) ed)) = 0%Qc /\
+  cl_kold QcF (cgls_iter QcF absR 2 eA 1 (cgls_setup QcF absR 2 eA ey (Some [qz 1; qz (-1)]) ed)) <> 0%Qc.
 Proof. exact example_hyps. Qed.
 Print Assumptions C09_hypotheses_satisfiable.
